@@ -1,6 +1,7 @@
 import Proofs.C12
 import Proofs.C02Hist
 import Proofs.C02Cross
+import Proofs.C02Nested
 /-!
 # C02 — Marshal then Unmarshal gives back the value (property theorems)
 
@@ -9,7 +10,7 @@ real code: whenever gocql.Marshal succeeds on a documented (column, Go type, val
 bytes into the same Go type gives an equal value.
 -/
 namespace C02
-open ValueSpec Marshal C12Bytes C12Int C12Varint C12Scalar C12 C02Hist C02Cross
+open ValueSpec Marshal C12Bytes C12Int C12Varint C12Scalar C12 C02Hist C02Cross C02Big C02Scalar C02Nested
 
 /-! ## integer columns, same Go kind — INCLUDING the unsigned wrap window -/
 
@@ -337,6 +338,286 @@ theorem C02_varint_cross_target (k : IntKind) (named : Bool) (v : Int) (hv : k.h
         simp [unmarshalVarint, front_val _ hne hlen, tcDec_specVarint, unmarshalIntlike]
       · cases hc
     | _ => simp [crossTarget] at hc
+
+/-! ## SCALARS: every documented kind, all values, same Go type -/
+
+theorem ms_intcol (t : CqlTy) (col : IntCol) (h : intColOf t = some col) (g : GoVal) :
+    marshalScalar t g = marshalIntColumn col g := by
+  cases t <;> simp [intColOf] at h <;> subst h <;> rfl
+
+theorem us_intcol (t : CqlTy) (col : IntCol) (h : intColOf t = some col) (isNil : Bool) (d : Bytes) (ty : GoTy) :
+    unmarshalScalar t isNil d ty = unmarshalIntlike (srcOf col) (decodeFixed (srcOf col) d) d ty := by
+  cases t <;> simp [intColOf] at h <;> subst h <;> rfl
+
+theorem srt_int (t : CqlTy) (col : IntCol) (h : intColOf t = some col) (k : IntKind) (named : Bool) (v : Int)
+    (hv : k.holds v = true) : SRT t (.int k named) (.int k named v) := by
+  intro ob hm
+  rw [ms_intcol t col h] at hm
+  rw [us_intcol t col h]
+  simp only [marshalIntColumn] at hm
+  cases hk : marshalIntKind col k named v with
+  | none => rw [hk] at hm; simp [optM] at hm
+  | some b =>
+    rw [hk] at hm
+    simp only [optM] at hm
+    have := ok_inj hm; subst this
+    have hr := C02_int_roundtrip col k named v hv b hk
+    simp [unmarshalIntlike, dataBytes, hr, optU]
+
+theorem srt_varint_kind (k : IntKind) (named : Bool) (v : Int) (hv : k.holds v = true) :
+    SRT .varint (.int k named) (.int k named v) := by
+  intro ob hm
+  have hm' : marshalVarintColumn (.int k named v) = .ok ob := hm
+  simp only [marshalVarintColumn] at hm'
+  cases hk : marshalVarintKind k named v with
+  | none => rw [hk] at hm'; simp [optM] at hm'
+  | some b =>
+    rw [hk] at hm'
+    simp only [optM] at hm'
+    have := ok_inj hm'; subst this
+    obtain ⟨hnone, hall⟩ := C02_varint_cross_target k named v hv
+    have hb := holds_bounds k v hv
+    have hacc : ¬ (k.signed = false ∧ v ≥ 9223372036854775808 ∧ ¬ (k = .uint64 ∧ named = false)) := by
+      intro hc
+      have := hnone.mpr hc
+      rw [hk] at this
+      cases this
+    have hct : crossTarget true v (.int k named) = .ok (.int k named v) := by
+      simp only [crossTarget, hv, Bool.not_true, Bool.false_eq_true, if_false, Bool.true_and]
+      by_cases hbig : v ≥ 9223372036854775808
+      · have hks : k.signed = false := by
+          cases hs : k.signed
+          · rfl
+          · have := hb.2.2.1 hs; omega
+        have hu : k = .uint64 ∧ named = false := by
+          by_cases hu : k = .uint64 ∧ named = false
+          · exact hu
+          · exact absurd ⟨hks, hbig, hu⟩ hacc
+        obtain ⟨rfl, rfl⟩ := hu
+        simp
+      · simp [hbig]
+    exact hall b hk (.int k named) _ hct
+
+/-- the documented (column, Go type, value) triples of the scalar columns for which the same-type round trip is claimed:
+    each line a Go kind with ALL its values, restricted only where the line says so -/
+inductive Leaf : CqlTy → GoTy → GoVal → Prop
+  /-- every Go integer kind, named or not, into tinyint / smallint / int / bigint / counter — every value of the kind
+      (Marshal refuses the ones the column cannot hold; the unsigned wrap window comes back through the same kind) -/
+  | int {t col} (h : intColOf t = some col) (k : IntKind) (named : Bool) (v : Int) (hv : k.holds v = true) :
+      Leaf t (.int k named) (.int k named v)
+  /-- every Go integer kind into varint, the unsigned upper half 2^63 … 2^64−1 included -/
+  | varint (k : IntKind) (named : Bool) (v : Int) (hv : k.holds v = true) : Leaf .varint (.int k named) (.int k named v)
+  /-- big.Int ↔ varint: arbitrary precision -/
+  | big (v : Int) : Leaf .varint .big (.big v)
+  | bigcol {t} (ht : t = .bigint ∨ t = .counter) (v : Int) : Leaf t .big (.big v)
+  | str {t} (ht : isTextual t) (named : Bool) (s : Bytes) : Leaf t (.str named) (.str named s)
+  /-- []byte: non-empty (EMPTY is KF-C02-2) -/
+  | bytes {t} (ht : isTextual t) (b : Bytes) (hb : b ≠ []) : Leaf t (.bytes false) (.bytes false false b)
+  | namedBytes {t} (ht : isTextual t) (b : Bytes) : Leaf t (.bytes true) (.bytes true false b)
+  | nilBytes {t} (ht : isTextual t) (named : Bool) : Leaf t (.bytes named) (.bytes named true [])
+  | bool (named b : Bool) : Leaf .boolean (.bool named) (.bool named b)
+  /-- float32: all 2^32 bit patterns (a NAMED float32 except signalling NaNs, which `float32(rv.Float())` quiets) -/
+  | f32 (named : Bool) (x : Nat) (hx : x < 2^32) (hq : named = true → quiet32 x = x) : Leaf .float (.f32 named) (.f32 named x)
+  | f64 (named : Bool) (x : Nat) (hx : x < 2^64) : Leaf .double (.f64 named) (.f64 named x)
+  /-- inf.Dec: every unscaled big integer, every int32 scale -/
+  | decimal (u s : Int) (hs : fitsS 4 s = true) : Leaf .decimal .dec (.dec u s)
+  | timeInt64 (named : Bool) (v : Int) (hv : fitsS 8 v = true) : Leaf .time (.int .int64 named) (.int .int64 named v)
+  | timeDur (v : Int) (hv : fitsS 8 v = true) : Leaf .time .dur (.dur v)
+  | tsInt64 (named : Bool) (v : Int) (hv : fitsS 8 v = true) : Leaf .timestamp (.int .int64 named) (.int .int64 named v)
+  | tsDur (v : Int) (hv : fitsS 8 v = true) : Leaf .timestamp .dur (.dur v)
+  /-- time.Time with whole milliseconds, pre-epoch and the zero time included, as far as int64 milliseconds reach -/
+  | tsTime (sec nsec : Int) (hn : 0 ≤ nsec ∧ nsec < 1000000000) (hms : nsec % 1000000 = 0)
+      (h1 : fitsS 8 (sec * 1000) = true) (h2 : fitsS 8 (exactMillis sec nsec) = true) : Leaf .timestamp .time (.time sec nsec)
+  /-- a midnight whose day is in the date range (pre-epoch included) -/
+  | dateTime (sec : Int) (hmid : sec % 86400 = 0) (h1 : fitsS 8 (sec * 1000) = true)
+      (hrange : fitsU 4 (sec / 86400 + 2147483648) = true) : Leaf .date .time (.time sec 0)
+  | uuid {t} (ht : isUuid t) (b : Bytes) (hb : b.length = 16) : Leaf t .uuid (.uuid b)
+  | arr16 {t} (ht : isUuid t) (b : Bytes) (hb : b.length = 16) : Leaf t .arr16 (.arr16 b)
+  /-- net.IP: 4 bytes, or 16 bytes not IPv4-mapped (the mapped ones: `C02_inet_mapped`) -/
+  | inet (b : Bytes) (hb : b.length = 4 ∨ (b.length = 16 ∧ ipTo4 b = none)) : Leaf .inet .ip (.ip b)
+
+theorem intCol_scalar (t : CqlTy) (col : IntCol) (h : intColOf t = some col) : CqlTy.isScalar t = true := by
+  cases t <;> simp [intColOf] at h <;> rfl
+
+theorem Leaf.shape {t : CqlTy} {ty : GoTy} {g : GoVal} (h : Leaf t ty g) :
+    CqlTy.isScalar t = true ∧ isBase ty = true ∧ isPlain g = true := by
+  cases h with
+  | int h _ _ _ _ => exact ⟨intCol_scalar _ _ h, rfl, rfl⟩
+  | bigcol ht _ => rcases ht with rfl | rfl <;> exact ⟨rfl, rfl, rfl⟩
+  | str ht _ _ => rcases ht with rfl | rfl | rfl | rfl <;> exact ⟨rfl, rfl, rfl⟩
+  | bytes ht _ _ => rcases ht with rfl | rfl | rfl | rfl <;> exact ⟨rfl, rfl, rfl⟩
+  | namedBytes ht _ => rcases ht with rfl | rfl | rfl | rfl <;> exact ⟨rfl, rfl, rfl⟩
+  | nilBytes ht _ => rcases ht with rfl | rfl | rfl | rfl <;> exact ⟨rfl, rfl, rfl⟩
+  | uuid ht _ _ => rcases ht with rfl | rfl <;> exact ⟨rfl, rfl, rfl⟩
+  | arr16 ht _ _ => rcases ht with rfl | rfl <;> exact ⟨rfl, rfl, rfl⟩
+  | _ => exact ⟨rfl, rfl, rfl⟩
+
+/-- SCALAR ROUND TRIP: for every documented triple of `Leaf` — every scalar column type, each Go kind with all its
+    values — whatever Marshal returns without error, Unmarshal of it into a fresh value of the same Go type is the
+    value that was given; every protocol version.  (Same statement for duration: NOT proved, see props `partial`.) -/
+theorem C02_scalar_roundtrip (p : Nat) (t : CqlTy) (ty : GoTy) (g : GoVal) (h : Leaf t ty g) :
+    ∀ ob, marshal p t g = .ok ob → unmarshal p t ty ob = .ok g := by
+  obtain ⟨hs1, hs2, hs3⟩ := h.shape
+  apply rt_scalar p t ty g hs1 hs2 hs3
+  cases h with
+  | int h k named v hv => exact srt_int _ _ h k named v hv
+  | varint k named v hv => exact srt_varint_kind k named v hv
+  | big v => exact srt_varint_big v
+  | bigcol ht v => exact srt_bigint_big _ ht v
+  | str ht named s => exact srt_str _ ht named s
+  | bytes ht b hb => exact srt_bytes _ ht b hb
+  | namedBytes ht b => exact srt_named_bytes _ ht b
+  | nilBytes ht named => exact srt_nil_bytes _ ht named
+  | bool named b => exact srt_bool named b
+  | f32 named x hx hq => exact srt_f32 named x hx hq
+  | f64 named x hx => exact srt_f64 named x hx
+  | decimal u s hs => exact srt_decimal u s hs
+  | timeInt64 named v hv => exact srt_time_int64 named v hv
+  | timeDur v hv => exact srt_time_dur v hv
+  | tsInt64 named v hv => exact srt_timestamp_int64 named v hv
+  | tsDur v hv => exact srt_timestamp_dur v hv
+  | tsTime sec nsec hn hms h1 h2 => exact srt_timestamp_time sec nsec hn hms h1 h2
+  | dateTime sec hmid h1 hr => exact srt_date_time sec hmid h1 hr
+  | uuid ht b hb => exact srt_uuid _ ht b hb
+  | arr16 ht b hb => exact srt_arr16 _ ht b hb
+  | inet b hb => exact srt_inet b hb
+
+/-- non-vacuity: boundaries named by the property — a negative big.Int in the upper half of its byte width, −0.0,
+    a NaN payload, a pre-epoch instant, the zero time -/
+example : Leaf .varint .big (.big (-32768)) := .big _
+example : Leaf .double (.f64 false) (.f64 false 0x8000000000000000) := .f64 _ _ (by decide)
+example : Leaf .float (.f32 false) (.f32 false 0x7fa00001) := .f32 _ _ (by decide) (by intro h; cases h)
+example : Leaf .timestamp .time (.time (-1) 999000000) := .tsTime _ _ (by decide) (by decide) (by decide) (by decide)
+example : Leaf .timestamp .time (.time zeroTimeSec 0) := .tsTime _ _ (by decide) (by decide) (by decide) (by decide)
+example : Leaf .date .time (.time (-86400) 0) := .dateTime _ (by decide) (by decide) (by decide)
+example : marshalVarintBig (-32768) = [128, 0] := by
+  rw [marshalVarintBig_spec, specVarint]; simp [byteOfNat]; rw [specVarint]; simp [byteOfNat]
+
+/-- arbitrary precision: what Marshal writes for a big.Int (varint) and for the unscaled value of an inf.Dec (decimal),
+    read back by decBigInt2C, is the number — EVERY integer; and the varint bytes are the specification's (shortest form) -/
+theorem C02_bigint_bytes_roundtrip (n : Int) :
+    decBigInt2C (encBigInt2C n) = n ∧ decBigInt2C (marshalVarintBig n) = n ∧ marshalVarintBig n = specVarint n :=
+  ⟨decBigInt2C_encBigInt2C n, by rw [marshalVarintBig_spec, decBigInt2C_specVarint], marshalVarintBig_spec n⟩
+
+/-- IPv4-mapped IPv6 (::ffff:a.b.c.d as 16 bytes): written as the 4-byte address, read back as the 4-byte net.IP — the
+    same ADDRESS (its 16-byte form is the original; `net.IP.Equal`), not the same byte slice: the documented exception
+    of the same-type round trip (kept out of rtsame by exactly this predicate) -/
+theorem C02_inet_mapped (b : Bytes) (h16 : b.length = 16) (hz : b.take 10 = List.replicate 10 0)
+    (hf : (b.drop 10).take 2 = [255, 255]) :
+    marshalScalar .inet (.ip b) = .ok (some (b.drop 12)) ∧
+    unmarshalScalar .inet false (b.drop 12) .ip = .ok (.ip (b.drop 12)) ∧
+    ipTo16 (b.drop 12) = some b := inet_mapped b h16 hz hf
+
+/-! ## NESTED: structural induction over the type tree -/
+
+/-- the values for which the same-type round trip is claimed, built over the scalar triples of `Leaf`: pointers and
+    pointers to pointers (nil, or a chain down to a value that is not written as null), lists / sets bound to slices and
+    arrays, maps (a Go map holds each key once), nil slices / maps, tuples bound to structs — nested to ANY depth.  Under protocol ≤ 2 the
+    elements must not be null (the 2-byte framing has no null element: KF-C02-3). -/
+inductive Clean (p : Nat) : CqlTy → GoTy → GoVal → Prop
+  | leaf {t ty g} : Leaf t ty g → Clean p t ty g
+  | nilptr (t : CqlTy) (k : Nat) (ty : GoTy) (hb : isBase ty = true) : Clean p t (ptrTy (k+1) ty) .nilptr
+  | ptr {t ty g} (k : Nat) (hb : isBase ty = true) : Clean p t ty g → NonNull p t g → Clean p t (ptrTy k ty) (wrapPtr k g)
+  | slice {t et gty vs} (ht : isListLike t et) : (∀ v, v ∈ vs → Clean p et gty v) →
+      (p ≤ 2 → ∀ v, v ∈ vs → NonNull p et v) → Clean p t (.slice gty) (.slice false vs)
+  | nilSlice {t et} (ht : isListLike t et) (gty : GoTy) : Clean p t (.slice gty) (.slice true [])
+  | array {t et gty vs} (ht : isListLike t et) : (∀ v, v ∈ vs → Clean p et gty v) →
+      (p ≤ 2 → ∀ v, v ∈ vs → NonNull p et v) → Clean p t (.array vs.length gty) (.array vs)
+  | map {kt vt gk gv kvs} : (∀ kv, kv ∈ kvs → Clean p kt gk kv.1) → (∀ kv, kv ∈ kvs → Clean p vt gv kv.2) →
+      (p ≤ 2 → ∀ kv, kv ∈ kvs → NonNull p kt kv.1 ∧ NonNull p vt kv.2) → KeysDistinct kvs →
+      Clean p (.map kt vt) (.map gk gv) (.map false kvs)
+  | nilMap (kt vt : CqlTy) (gk gv : GoTy) : Clean p (.map kt vt) (.map gk gv) (.map true [])
+  /-- tuple<T1, …, Tn> ↔ struct whose i-th field is of type goType(Ti) (`val`) or *goType(Ti) (`null`: nil, `ptr`:
+      pointing to a value not written as null), the held values `Clean` again — tuples inside lists inside tuples … -/
+  | tuple (fs : List TField) : (∀ f, f ∈ fs → f.kind ≠ .null → Clean p f.t (goTypeOf f.t) f.v) →
+      (∀ f, f ∈ fs → f.side p) →
+      Clean p (.tuple (fs.map (·.t))) (.struct (fs.map (·.ty))) (.struct (fs.map (·.val)))
+
+/-- NESTED ROUND TRIP, by structural induction: for every `Clean` value — scalars inside pointers inside lists inside
+    maps inside lists …, any depth — whatever Marshal returns without error, Unmarshal of it into a fresh value of the same
+    Go type is the value that was given.  Both collection framings: every protocol version `p` (2-byte lengths for
+    p ≤ 2, 4-byte lengths and −1 for null from 3). -/
+theorem C02_nested_roundtrip (p : Nat) (t : CqlTy) (ty : GoTy) (g : GoVal) (h : Clean p t ty g) :
+    ∀ ob, marshal p t g = .ok ob → unmarshal p t ty ob = .ok g := by
+  induction h with
+  | leaf hl => exact C02_scalar_roundtrip p _ _ _ hl
+  | nilptr t k ty hb => exact rt_nilptr p t k ty hb
+  | ptr k hb _ hnn ih => exact rt_ptr p _ k _ hb _ ih hnn
+  | slice ht _ hnn ih => exact rt_slice p _ _ ht _ _ ih hnn
+  | nilSlice ht gty => exact rt_nil_slice p _ _ ht gty
+  | array ht _ hnn ih => exact rt_array p _ _ ht _ _ ih hnn
+  | map _ _ hnn hd ihk ihv => exact rt_map p _ _ _ _ _ (fun kv hkv => ⟨ihk kv hkv, ihv kv hkv⟩) hnn hd
+  | nilMap kt vt gk gv => exact rt_nil_map p kt vt gk gv
+  | tuple fs _ hside ih => exact rt_tuple_struct p _ _ _ (fieldsRT_of p fs ih hside)
+
+/-- non-vacuity: list<map<text, list<int>>> — a slice holding a nil map and a map from "b" to a slice of *int (one
+    pointing to 7, one nil = a null element, protocol 4).  (Maps with two or more entries: the hypothesis `KeysDistinct`
+    is stated with the model's key comparison `==` of `GoVal`, a derived instance the kernel cannot unfold — it is an
+    assumption there, see props `partial`.) -/
+example : Clean 4 (.list (.map .text (.list .int))) (.slice (.map (.str false) (.slice (.ptr (.int .int false)))))
+    (.slice false [.map true [],
+                   .map false [(.str false [98], .slice false [.ptr (.int .int false 7), .nilptr])]]) := by
+  refine .slice (Or.inl rfl) ?_ (by intro h; omega)
+  intro v hv
+  simp at hv
+  rcases hv with rfl | rfl
+  · exact .nilMap _ _ _ _
+  · refine .map ?_ ?_ (by intro h; omega) ⟨(by intro kv h; cases h), trivial⟩
+    · intro kv hkv
+      simp at hkv; subst hkv
+      exact .leaf (.str (Or.inr (Or.inl rfl)) _ _)
+    · intro kv hkv
+      simp at hkv; subst hkv
+      refine .slice (Or.inl rfl) ?_ (by intro h; omega)
+      intro v hv
+      simp at hv
+      rcases hv with rfl | rfl
+      · exact .ptr 1 rfl (.leaf (.int (col := .int) rfl _ _ _ (by decide))) (by
+          unfold NonNull; simp [marshal, marshalScalar, marshalIntColumn, optM, marshalIntKind])
+      · exact .nilptr _ 0 _ rfl
+
+/-- non-vacuity of the tuple constructor: list<tuple<int, text>> ↔ []struct{ *int; string } = [(null, "A")] -/
+example : Clean 4 (.list (.tuple [.int, .text])) (.slice (.struct [.ptr (.int .int false), .str false]))
+    (.slice false [.struct [.nilptr, .str false [65]]]) := by
+  refine .slice (Or.inl rfl) ?_ (by intro h; omega)
+  intro v hv
+  simp at hv; subst hv
+  refine Clean.tuple [⟨.int, .null, .nil⟩, ⟨.text, .val, .str false [65]⟩] ?_ ?_
+  · intro f hf hk
+    simp at hf
+    rcases hf with rfl | rfl
+    · exact absurd rfl hk
+    · exact .leaf (.str (Or.inr (Or.inl rfl)) _ _)
+  · intro f hf
+    simp at hf
+    rcases hf with rfl | rfl
+    · exact nullOK_scalar 4 .int rfl
+    · refine ⟨rfl, rfl, ?_⟩
+      intro b hb
+      simp [marshal, marshalScalar, marshalVarcharColumn] at hb
+      subst hb; simp
+
+/-- TUPLE step (element theorems as hypotheses, `FieldsRT`): a struct bound to tuple<T1, …, Tn> whose i-th field has
+    type goType(Ti) — holding a value whose round trip holds — or *goType(Ti) — nil, or pointing to such a value that is
+    not written as null — is given back unchanged by Marshal followed by Unmarshal into the same struct type: every arity,
+    every protocol version; null (nil pointer), EMPTY and values keep their meanings.  Generalises
+    `C02_tuple_text_roundtrip` from text fields to every element type (fields of another documented type: KF-C02-4). -/
+theorem C02_tuple_struct_roundtrip (p : Nat) (ts : List CqlTy) (gs : List GoTy) (vs : List GoVal)
+    (h : FieldsRT p ts gs vs) :
+    ∀ ob, marshal p (.tuple ts) (.struct vs) = .ok ob → unmarshal p (.tuple ts) (.struct gs) ob = .ok (.struct vs) :=
+  rt_tuple_struct p ts gs vs h
+
+/-- non-vacuity: tuple<int, list<text>, text> ↔ struct { *int; []string; *string } = (pointer to 7, nil slice, nil) -/
+example : FieldsRT 4 [.int, .list .text, .text] [.ptr (.int .int false), .slice (.str false), .ptr (.str false)]
+    [.ptr (.int .int false 7), .slice true [], .nilptr] := by
+  refine .ptr (t := .int) ?_ ?_ ?_ (.val (t := .list .text) rfl rfl ?_ ?_ (.null (t := .text) (nullOK_scalar 4 .text rfl) .nil))
+  · exact C02_scalar_roundtrip 4 _ _ _ (.int (col := .int) rfl _ _ _ (by decide))
+  · unfold NonNull; simp [marshal, marshalScalar, marshalIntColumn, optM, marshalIntKind]
+  · intro b hb
+    simp [marshal, marshalScalar, marshalIntColumn, optM, marshalIntKind] at hb
+    subst hb; simp [encInt]
+  · exact C02_nested_roundtrip 4 _ _ _ (.nilSlice (Or.inl rfl) _)
+  · intro b hb; simp [marshal] at hb
 
 /-- FULL STATEMENT (does not hold): "… into any documented target type able to represent the value".  2^63 written by a
     bare uint64 into a varint column (00 80 00 00 00 00 00 00 00) decodes into *uint64 and *big.Int, but `*uint`, which
